@@ -84,7 +84,7 @@ impl Scenario for Pairs {
         let k = run / 2;
         let stratum = ((k % 3) as u8, ((k / 3) % 16) as u8);
         let style = if k % 4 == 0 { Style::Mash } else { Style::Unknown };
-        let p = TypistParams { style, actions: rng.range(6, if tier == Tier::Quick { 60 } else { 150 }) as usize, stratum };
+        let p = TypistParams { style, actions: marathon(run, rng.range(6, if tier == Tier::Quick { 60 } else { 150 }) as usize), stratum };
         let mut ops = type_session(rng, &cfg, &p);
         // a table-free keyboard also has the keys 00 and AA
         if cfg.set == 2 && rng.chance(1, 4) {
@@ -424,7 +424,7 @@ impl Scenario for Dual {
         let (fp, fc, fb) = ((f / 258) as u8, codes[(f / 2) % 129], f % 2 == 1);
         let stratum = (fp, fc / 16);
         let style = STYLES[((run / 7) % STYLES.len() as u64) as usize];
-        let p = TypistParams { style, actions: rng.range(6, if tier == Tier::Quick { 60 } else { 150 }) as usize, stratum };
+        let p = TypistParams { style, actions: marathon(run, rng.range(6, if tier == Tier::Quick { 60 } else { 150 }) as usize), stratum };
         let mut ops = type_session(rng, &cfg, &p);
         ops.retain(|o| matches!(o.op, Op::Key { code, .. } if c13_domain(code)));
         let pos = rng.below(ops.len() as u64 + 1) as usize;
